@@ -91,8 +91,17 @@ def capOk : Cap → Bool
   | .as4 n => n < 4294967296
   | .ap l => l.all (fun x => famOk x.1 && 1 ≤ x.2 && x.2 ≤ 3) && l.length * 4 ≤ 255
   | .llgr l => l.all (fun x => famOk x.1 && x.2.1 < 256 && x.2.2 < 16777216) && l.length * 7 ≤ 255
-  | .fqdn h d => h.all (· < 128) && d.all (· < 128) && 2 + h.length + d.length ≤ 255
+  | .fqdn h d => utf8Valid h && utf8Valid d && 2 + h.length + d.length ≤ 255
   | .unk c b => c < 256 && !knownCapCodes.contains c && b.all (· < 256) && b.length ≤ 255
+
+def isFlowspecFam (f : Fam) : Bool := (f.afi == 1 || f.afi == 2) && (f.safi == 133 || f.safi == 134)
+
+/-- RFC 8955 §4.1: a Flow Specification NLRI is its length (one octet below 240, else two octets carrying 12 bits)
+    followed by exactly that many octets, and the length is written in the form its value calls for. -/
+def flowNlriFramed (enc : Bytes) : Bool :=
+  match readFlowNlriLen enc with
+  | some (n, h) => enc.length == h + n && enc == flowNlriLen n ++ enc.drop h
+  | none => false
 
 def lastAs4? (caps : List Cap) : Option Nat :=
   caps.foldl (fun n c => match c with | .as4 a => some a | _ => n) none
@@ -544,11 +553,19 @@ def frameClause (i : Input) (n : Nat) (stream : Bytes) : Option String :=
   else if frames.any (fun fr => beNat ((fr.drop 18).take 1) ≠ expectedType i.msg) then some "wrong-message-type"
   else firstSome frames frameLengths
 
+/-- a Flow Specification entry whose wire bytes are not a well-formed length + rule (RFC 8955 §4.1) -/
+def entryFlowBad (e : Entry) : Bool :=
+  match e.nlri with
+  | .opq (.ok b) _ _ => !flowNlriFramed b
+  | _ => false
+def flowBad (f : Fam) (es : List Entry) : Bool := isFlowspecFam f && es.any entryFlowBad
+
 /-- byte-level partition for the impl-only families: the MP NLRI regions of the frames concatenate to the
     wire bytes of the input entries -/
 def opaqueClause (i : Input) (frames : List Bytes) : Option String :=
   match i.msg with
   | .reach f _ _ es | .unreach f es =>
+      if flowBad f es then some "flowspec-nlri-length-inconsistent" else
       (match opaqueRegion (addPathTx i f) es with
        | some want =>
            let got := frames.flatMap (fun fr =>
